@@ -15,7 +15,7 @@ TYPES = ["BOOLEAN", "INTEGER", "FLOAT", "CODE", "EXEC", "BOOLVECTOR", "INTVECTOR
 def value(rng, T):
     if T == "BOOLEAN": return [B(rng.random() < 0.5)]
     if T == "INTEGER": return [Z(rng.randrange(-9, 10))]
-    if T == "FLOAT": return [F(fbits(rng.randrange(-8, 9) / 2.0))]
+    if T == "FLOAT": return [F(rng.choice([fbits(rng.randrange(-8, 9) / 2.0), fbits(1.0), fbits(1.0004), fbits(0.0), fbits(0.0001), 0x80000000, 0x7fc00000, 0xffc00000, fbits(2.0)]))]
     if T == "BOOLVECTOR": return [BV([rng.random() < 0.5 for _ in range(rng.randrange(0, 3))])]
     if T == "INTVECTOR": return [IV([rng.randrange(0, 9) for _ in range(rng.randrange(0, 3))])]
     if T == "FLOATVECTOR": return [FV([fbits(float(rng.randrange(0, 4))) for _ in range(rng.randrange(0, 3))])]
@@ -56,7 +56,8 @@ def streams(seed, tier):
         prog = []
         for _ in range(rng.randrange(1, 12)):
             prog += op(rng, modelled)
-        cases.append(case_run(rng.randrange(2), state(exec=[L(*prog)]), 1, 0))
+        # 15%: a NAME.QUOTE is already pending when the program starts (the previous program on this state ended with one)
+        cases.append(case_run(rng.randrange(2), state(exec=[L(*prog)], quote=rng.random() < 0.15, bind=([("X", F(fbits(1.0)))] if rng.random() < 0.2 else [])), 1, 0))
     return [Stream("define-use-quote", "run", "run.check", cases,
                    "random interleavings (1..11 operations) of define / use / quote / redefine / CODE.DEFINITION over 8 value types x 3 names (values include bare names: aliases), executed as programs by run(); whole final state compared (typed stacks, NAME, name_bindings sorted, quote_name)")]
 
